@@ -9,7 +9,9 @@ EXPLANATION = (
     "word-length equality check precedes everything and its failing branch raises; the primitive of the same name is called with n_word=self.n_word on self.val and on the other word's codes (re-typed at most to an integer carrier, never to a value type); the "
     "result is re-signed with twos_complement_repr(nbits=self.n_word) iff self.signed; the pattern is stored raw into self.deepcopy(); R3 twos_complement_repr maps "
     "patterns in [0,2^n) by the sign-bit test (bit n-1, boundary 100..0 included) to v - 2^n; reflected/in-place aliases only onto the same commutative operator. "
-    "Residual: iteration over array operands by @array_support (outside the quantifier's scalar patterns); Python's & | ^ on ints (lemma).")
+    "Residual: iteration over array operands by @array_support (outside the quantifier's scalar patterns); Python's & | ^ on ints (lemma)."
+    ' Added after the third round of seeded changes: R4 element-wise helpers read and rebuild arrays in the same (C) order; raw stores bypass the scale/bias map (C17.R1); codes reach the buffer only through set_val (C02.R1).'
+)
 ASSUMPTIONS = ["for 0 <= v < 2^n: (v & 2^(n-1)) != 0  <=>  v >= 2^(n-1)"]
 TRUSTED = ["CPython ast", "fxlint term normaliser"]
 
